@@ -466,6 +466,13 @@ class Executor:
             return self.binop(rv[1], a, b)
         if k == 'unop':
             a = self._operand(fn, rv[2], frame, st)
+            if rv[1] == 'PtrMetadata':
+                t = st.deref_all(a) if isinstance(a, Ref) else a
+                if isinstance(t, VecV): return Int(len(t.items), 'usize')
+                if isinstance(t, StrV):
+                    from .models.strings import byte_len
+                    return byte_len(t)
+                raise Unsupported(f'PtrMetadata of {t!r}')
             return self.unop(rv[1], a)
         if k == 'cast':
             a = self._operand(fn, rv[1], frame, st)
@@ -632,7 +639,11 @@ class Executor:
                     yield from res; return
         fn = self.prog.resolve(callee, args, st, caller)
         if fn is None:
-            raise Unsupported(f'no model and no MIR body for callee `{callee}` (from {caller.name if caller else "?"})')
+            recv = ''
+            if args:
+                r0 = st.deref_all(args[0]) if isinstance(args[0], Ref) else args[0]
+                recv = f'; receiver {r0!r}'[:160]
+            raise Unsupported(f'no model and no MIR body for callee `{callee}` (from {caller.name if caller else "?"}){recv}')
         yield from self.run(fn, args, st, depth + 1)
 
     def call_value(self, f, args, st, depth):
